@@ -25,7 +25,9 @@ pub struct PanicRec {
 impl PanicRec {
     /// signature without run-specific numbers
     pub fn sig(&self) -> String {
-        let m: String = self.msg.chars().map(|c| if c.is_ascii_digit() { '#' } else { c }).collect();
+        // drop run-specific content: digits, and everything from the first quoted fragment on
+        let head = self.msg.split(|c| c == '`' || c == '\'' || c == '"').next().unwrap_or("");
+        let m: String = head.chars().map(|c| if c.is_ascii_digit() { '#' } else { c }).collect();
         let mut short = String::new();
         let mut prev = ' ';
         for c in m.chars() {
@@ -35,7 +37,7 @@ impl PanicRec {
             short.push(c);
             prev = c;
         }
-        let short: String = short.chars().take(80).collect();
+        let short: String = short.trim().chars().take(60).collect();
         format!("panic:{}:{}", self.file, short)
     }
     pub fn text(&self) -> String {
